@@ -8,12 +8,16 @@ through *independent* stdlib decoding:
   path        Requestant.path == path and unquote(PATH_INFO) == path
   query       parse_qsl(QUERY_STRING, keep_blank_values=True) == [(str(k), str(v))...]
   headers     every header given to the client is recovered with the same value
-              (names case-insensitively), also as HTTP_* in the environ
+              (names case-insensitively), also as HTTP_* in the environ; a name the client was
+              given more than once (its header container is multi-valued and it sends one line
+              per value) is recovered with every value in order: parser headers.getall(name),
+              environ the values combined into one comma separated string
   body        Requestant.body and wsgi.input == the bytes the client put after the
               head; CONTENT_LENGTH == their length; for JSON data json.loads(body) == data
 The request must parse without error and leave no unconsumed bytes.
 """
 import json
+import re
 from urllib.parse import parse_qsl, unquote
 
 from hypothesis import strategies as st
@@ -26,8 +30,10 @@ assert_in_tree(clienting, httping, serving)
 
 PID = "C14"
 RULE = ("cases: method x unicode path (segments without '?', '#', control characters) x query dict (arbitrary unicode keys "
-        "and values incl. reserved characters, empties, ints) x <= 90 headers (token names, latin-1 values) x body as raw "
-        "bytes / JSON data / form fields (urlencoded or multipart), with or without explicit Content-Length, optionally after "
+        "and values incl. reserved characters, empties, ints) x <= 94 headers (token names, latin-1 values; optionally 1-4 of "
+        "the names given again - same or other letter case - with further values) x body as raw "
+        "bytes / JSON data / form fields (urlencoded or multipart), with or without explicit Content-Length (on every "
+        "method, the body-less GET included; also remembered across a rebuild that changes the method), optionally after "
         "1-2 earlier requests on the same persistent connection (one Requestant re-armed per message, as the server does), "
         "optionally built a 2nd / 3rd time by the same Requester from what it remembers (rebuild() with the body "
         "arguments given again and, optionally, a new method / path / query dict / header list - empty ones included). non-trivial = "
@@ -35,7 +41,10 @@ RULE = ("cases: method x unicode path (segments without '?', '#', control charac
         "= canonical hash of the spec")
 ASSUMPTIONS = ["the path argument is URL path syntax: it starts with a single '/', has no '?', '#', control characters or "
                "trailing blanks (Python's urlsplit strips those)", "form fields are judged only as body bytes (the statement "
-               "lists what the server recovers)", "header values without leading/trailing blanks"]
+               "lists what the server recovers)", "header values without leading/trailing blanks",
+               "a header name given more than once: the environ must hold all its values in order combined with commas "
+               "(blanks around the commas not judged; not judged at all for names that share their CGI key with another "
+               "name)", "an explicit Content-Length is the length of the raw body the caller gives with it"]
 
 RESERVED_HDR = {"host", "accept-encoding", "content-length", "content-type", "transfer-encoding", "expect"}
 
@@ -53,6 +62,20 @@ def make_server():
 
 
 def run_case(spec):
+    diag = {}
+    r = judge(spec, diag)
+    if r.failures and diag.get("overdeclared"):
+        # whatever the server then made of the connection, the cause is in the client's own bytes: a message declares
+        # a longer body than the client put after its head, so the server waits for bytes that never come or takes
+        # them from the next request. One signature for all the symptoms of it.
+        first = r.failures[0]
+        del r.failures[:]
+        r.fail("C14/not-recovered(client declares more Content-Length than it sends)",
+               "%s; server side symptom: %s %s" % (diag["overdeclared"], first.sig, first.detail))
+    return r
+
+
+def judge(spec, diag):
     r = Result()
     kw = dict(hostname="127.0.0.1", port=8080, method=spec["method"], path=spec["path"],
               qargs=dict(spec["qargs"]), headers=[tuple(h) for h in spec["headers"]])
@@ -67,7 +90,11 @@ def run_case(spec):
     elif bodykind == "multipart":
         kw["fargs"] = dict(spec["fargs"])
         kw["headers"] = kw["headers"] + [("Content-Type", "multipart/form-data")]
-    if spec.get("explicit_cl") and bodykind == "raw" and spec["method"] != "GET":
+    # "cl_any_method" (cases recorded before it existed do not have it): the caller's explicit Content-Length is given
+    # with every method - also with GET, whose body the client documents it does not send - and stays remembered when
+    # a rebuild changes the method
+    cl_any = bool(spec.get("cl_any_method"))
+    if spec.get("explicit_cl") and bodykind == "raw" and (spec["method"] != "GET" or cl_any):
         kw["headers"] = kw["headers"] + [("Content-Length", str(len(spec["body"])))]
     reqr = clienting.Requester(**kw)
     msg = reqr.build()
@@ -76,14 +103,15 @@ def run_case(spec):
     reuse = spec.get("reuse") or 0
     earlier = b""
     changes = spec.get("changes") or {}
+    built = [(bytes(reqr.head), len(msg) - len(reqr.head))]     # (head, bytes after it) of every message of this client
     for k_ in range(reuse):
         earlier += msg
         rk = {k: kw[k] for k in ("body", "data", "fargs") if k in kw}
         if k_ == reuse - 1:
             # the last rebuild may give some of the remembered parts again - also as EMPTY values, which are values
-            if changes.get("method") is not None and not spec.get("explicit_cl"):
-                # (an explicit Content-Length header the caller gave earlier stays remembered: changing to or from a
-                # body-less method under it would be the caller's inconsistency, not judged)
+            if changes.get("method") is not None and (not spec.get("explicit_cl") or cl_any):
+                # (an explicit Content-Length header the caller gave earlier stays remembered; the body it describes
+                # is given again with the new method)
                 rk["method"] = changes["method"]
             if changes.get("path") is not None:
                 rk["path"] = changes["path"]
@@ -92,6 +120,7 @@ def run_case(spec):
             if changes.get("headers") is not None and bodykind != "multipart" and not spec.get("explicit_cl"):
                 rk["headers"] = [tuple(h) for h in changes["headers"]]
         msg = reqr.rebuild(**rk)
+        built.append((bytes(reqr.head), len(msg) - len(reqr.head)))
         if k_ == reuse - 1:
             spec = dict(spec)
             for key in ("method", "path", "qargs"):
@@ -104,6 +133,14 @@ def run_case(spec):
                 r.labels.append("rebuilt-with-changed-parts")
     head = reqr.head
     sent_body = msg[len(head):]
+    # what the client's own bytes say: the Content-Length a message declares against the bytes put after its head
+    for bhead, nafter in built:
+        declared = [ln.split(b":", 1)[1].strip() for ln in bhead.split(b"\r\n")[1:]
+                    if ln.split(b":", 1)[0].strip().lower() == b"content-length"]
+        if len(declared) == 1 and declared[0].isdigit() and int(declared[0]) > nafter:
+            diag["overdeclared"] = "the client, given a raw body of %d bytes and an explicit Content-Length, sent %d bytes " \
+                "after the head %r" % (len(spec["body"]), nafter, bhead[:200])
+            break
     # earlier requests on the same (persistent) connection: the server reuses one Requestant per connection, so
     # whatever it recovers for THIS request must come from this request's bytes only
     before = b""
@@ -163,9 +200,29 @@ def run_case(spec):
             r.fail("C14/query", "sent %r recovered %r (query string %r)" % (want_q, got_q, env["QUERY_STRING"][:120]))
     if not r.failures:
         cgi = [str(x).replace("-", "_").upper() for x in got["headers"].keys()]     # every header name on the wire
+        given = {}                       # name (case-insensitive) -> the values the client was given for it, in order
         for n, v in hdrs:
-            gv = got["headers"].get(n.lower())
+            given.setdefault(n.lower(), []).append(v)
+        for n, v in hdrs:
             key = n.replace("-", "_").upper()
+            want = given[n.lower()]
+            if len(want) > 1:
+                # a name given more than once: the client sends one line per value; the server's multi-valued header
+                # container must hold every value in order, the environ (one string per name) all of them combined
+                # with commas (RFC 9110 5.3 / RFC 3875 4.1.18; blanks around the comma are not judged)
+                gl = list(req.headers.getall(n, []))
+                if gl != want:
+                    r.fail("C14/repeated-header", "header %r sent with values %r, the parser's headers.getall() has %r" % (
+                        n, want, gl))
+                    break
+                ev = env.get("HTTP_" + key)
+                sep = "[ \t]*[,;][ \t]*" if n.lower() == "cookie" else "[ \t]*,[ \t]*"
+                if cgi.count(key) == 1 and (ev is None or not re.fullmatch(sep.join(re.escape(x) for x in want), ev)):
+                    r.fail("C14/repeated-header-environ", "header %r sent with values %r, environ HTTP_%s is %r" % (
+                        n, want, key, ev))
+                    break
+                continue
+            gv = got["headers"].get(n.lower())
             # two header names that differ only in '-' / '_' share one CGI environ key (inherent in WSGI): the
             # environ side is then not judged for them, the parser side still is
             ev = env.get("HTTP_" + key) if cgi.count(key) == 1 else v
@@ -207,6 +264,10 @@ def finish(r, spec):
         r.labels.append("after-earlier-requests-on-the-connection")
     if spec.get("reuse"):
         r.labels.append("rebuilt-by-the-same-requester")
+    if len({h[0].lower() for h in spec["headers"]}) < len(spec["headers"]):
+        r.labels.append("repeated-header-name")
+    if spec.get("explicit_cl") and spec.get("cl_any_method") and spec["bodykind"] == "raw" and spec["method"] == "GET":
+        r.labels.append("GET-with-explicit-content-length")
     r.labels.append("body:" + spec["bodykind"])
     r.labels.append("method:" + ("GET" if spec["method"] == "GET" else "other"))
     return r
@@ -233,11 +294,32 @@ def qargs_strategy():
     return st.lists(st.tuples(QTEXT, val).map(list), max_size=5, unique_by=lambda kv: str(kv[0]))
 
 
+HDR_NAME = st.one_of(httpgen.header_name(), httpgen.header_name(),
+                     st.sampled_from(["Accept", "X-Forwarded-For", "Via", "Cache-Control", "Accept-Language", "X-Tag"])) \
+    .filter(lambda n: n.lower() not in RESERVED_HDR)
+
+
+@st.composite
+def with_repeats(draw, base):
+    """A header list of distinct names in which, in about half of the draws, 1-4 of the names are given again (as
+    written, upper or lower case: field names are case-insensitive) with a further value, anywhere in the list - what a
+    caller does with the client's multi-valued header container for list-valued fields (Accept, Via, X-Forwarded-For...)."""
+    hs = draw(base)
+    if not hs or not draw(st.booleans()):
+        return hs
+    out = [list(h) for h in hs]
+    extra = draw(st.lists(st.tuples(st.integers(0, len(hs) - 1), st.sampled_from(["same", "same", "upper", "lower"]),
+                                    httpgen.header_value(), st.integers(0, 200)), min_size=1, max_size=4))
+    for idx, how, val, pos in extra:
+        n = hs[idx][0]
+        out.insert(pos % (len(out) + 1), [n.upper() if how == "upper" else n.lower() if how == "lower" else n, val])
+    return out
+
+
 def header_list():
-    name = httpgen.header_name().filter(lambda n: n.lower() not in RESERVED_HDR)
-    hv = st.tuples(name, httpgen.header_value()).map(list)
-    return st.one_of(st.lists(hv, max_size=8, unique_by=lambda h: h[0].lower()),
-                     st.lists(hv, min_size=10, max_size=90, unique_by=lambda h: h[0].lower()))
+    hv = st.tuples(HDR_NAME, httpgen.header_value()).map(list)
+    return with_repeats(st.one_of(st.lists(hv, max_size=8, unique_by=lambda h: h[0].lower()),
+                                  st.lists(hv, min_size=10, max_size=90, unique_by=lambda h: h[0].lower())))
 
 
 JSONV = st.recursive(st.one_of(st.none(), st.booleans(), st.integers(-10 ** 6, 10 ** 6), st.text(max_size=8)),
@@ -245,9 +327,9 @@ JSONV = st.recursive(st.one_of(st.none(), st.booleans(), st.integers(-10 ** 6, 1
                      max_leaves=6)
 
 
-def spec_strategy():
+def spec_strategy(**fixed):
     ftext = st.text(alphabet="abcdefghijklmnopqrstuvwxyz0123456789 -_.é", max_size=8)
-    return st.fixed_dictionaries({
+    parts = {
         "method": st.sampled_from(httpgen.METHODS),
         "path": path_strategy(),
         "qargs": qargs_strategy(),
@@ -257,16 +339,18 @@ def spec_strategy():
         "data": st.dictionaries(st.text(max_size=5), JSONV, max_size=4),
         "fargs": st.lists(st.tuples(ftext.filter(bool), ftext).map(list), max_size=3, unique_by=lambda kv: kv[0]),
         "explicit_cl": st.booleans(),
+        "cl_any_method": st.booleans(),
         "prev": st.one_of(st.just([]), st.just([]), st.lists(prev_request(), min_size=1, max_size=2)),
         "reuse": st.sampled_from([0, 0, 1, 2]),
         "changes": st.one_of(st.none(), st.fixed_dictionaries({
             "method": st.one_of(st.none(), st.sampled_from(httpgen.METHODS)),
             "path": st.one_of(st.none(), st.none(), path_strategy()),
             "qargs": st.one_of(st.none(), st.just([]), st.just([]), qargs_strategy()),
-            "headers": st.one_of(st.none(), st.none(), st.just([]), st.lists(
-                st.tuples(httpgen.header_name().filter(lambda n: n.lower() not in RESERVED_HDR), httpgen.header_value()).map(list),
-                max_size=4, unique_by=lambda h: h[0].lower()))})),
-    })
+            "headers": st.one_of(st.none(), st.none(), st.just([]), with_repeats(st.lists(
+                st.tuples(HDR_NAME, httpgen.header_value()).map(list), max_size=4, unique_by=lambda h: h[0].lower())))})),
+    }
+    parts.update(fixed)
+    return st.fixed_dictionaries(parts)
 
 
 def prev_request():
@@ -279,4 +363,10 @@ def prev_request():
 
 def searches(tier):
     q = tier == "quick"
-    return [("requests", spec_strategy(), 2500 if q else 30000)]
+    # the second search keeps to raw bodies of at least one byte under an explicit Content-Length on every method (in
+    # the first one only about one case in 200 is a GET of that kind)
+    return [("requests", spec_strategy(), 2500 if q else 30000),
+            ("requests-with-explicit-content-length",
+             spec_strategy(bodykind=st.just("raw"), explicit_cl=st.just(True), cl_any_method=st.just(True),
+                           body=httpgen.body_bytes(120).filter(bool),
+                           method=st.sampled_from(httpgen.METHODS + ["GET", "GET"])), 300 if q else 4000)]
